@@ -171,6 +171,44 @@ def one_input(ctx, inp, cid, tmp, heavy=True):
             g.es["w"] = [float(W[e.tuple]) for e in g.es]
         return Network.FromIGraph(g, silence_level=3)
     build("FromIGraph", ig)
+    # the same links listed in another order and, when undirected, in either
+    # orientation: an equivalent edge list / igraph object.  Objects whose
+    # embedded graph numbers its edges differently from the adjacency order
+    # are then copied, saved and loaded like any other.
+    rs = ctx.rng("shuffle", cid)
+    es = edges[rs.permutation(len(edges))] if len(edges) else edges
+    if not d and len(es):
+        flip = rs.random(len(es)) < 0.5
+        es = np.where(flip[:, None], es[:, ::-1], es)
+    build("edge_list-ctor[shuffled]", lambda: with_attr(Network(
+        edge_list=es, n_nodes=n, directed=d, node_weights=w,
+        silence_level=3)))
+
+    def ig_s():
+        g = igraph.Graph(n=n, edges=[tuple(map(int, e)) for e in es],
+                         directed=d)
+        if w is not None:
+            g.vs["node_weight_nsi"] = list(map(float, w))
+        if W is not None:
+            g.es["w"] = [float(W[e.tuple]) for e in g.es]
+        return Network.FromIGraph(g, silence_level=3)
+    ign = build("FromIGraph[shuffled]", ig_s)
+    if ign is not None:
+        build("copy-of-FromIGraph[shuffled]", ign.copy)
+        build("copy-of-copy-of-FromIGraph[shuffled]",
+              lambda: ign.copy().copy())
+        if heavy:
+            fmt = FORMATS[int(rs.integers(0, len(FORMATS)))]
+
+            def rt_ig(fmt=fmt):
+                fn = os.path.join(tmp, f"ig.{fmt}")
+                ign.save(fn, fileformat=fmt)
+                return Network.Load(fn, fileformat=fmt, silence_level=3)
+            ctx.count("roundtrips")
+            ld = build(f"save-Load-of-FromIGraph[shuffled]:{fmt}", rt_ig,
+                       text=fmt != "pickle")
+            if ld is not None:
+                build(f"copy-of-Load:{fmt}", ld.copy, text=fmt != "pickle")
     if base is not None:
         build("copy", base.copy)
         if not d:
